@@ -1,8 +1,279 @@
 import Qentem.Driver.Proto
-namespace Qentem.Driver.Seq
-open Qentem.Driver
+import Qentem.Model.Seq
+import Qentem.Model.Mem
+import Qentem.Model.SeqLedger
+/-!
+Driver for C14.  One line carries a whole test program (the table of objects lives for one line):
 
-/-- Stub: replaced by the area's model driver. `op` is the first token of the line. -/
-def handle (_op : String) (_args : List String) : String := "bad-op"
+  seq-array  <kind> <op;op;…>           model of `Array`  (kind i = Array<int>, s = Array<String<char>>; ignored here)
+  seq-string <width> <op;op;…>          model of `String`
+  seq-stream <width> <x|s> <op;op;…>    model of `StringStream`, capacity policy exact-fit (x) or shipped (s)
+  seq-view   <width> <op;op;…>          model of `StringView`
+  seq-…-spec <…> <op;op;…>              the plain `List` specification of the same program (S3 oracle)
+  seqmem copy|zero <simd> <shift> <size> <seed>     `Memory::Copy` / `SetToZero` model; digest of the result
+  seqled-array i <ops> | seqled-string <w> <ops> | seqled-stream <w> <x|s> <ops>
+                                         C16: the allocation trace (`a<id>:<bytes>`, `f<id>`) the program emits
+
+Output: the dump of the three registers after every step, steps joined by `|`.
+-/
+namespace Qentem.Driver.Seq
+open Qentem.Driver Qentem.Seq
+
+def regs : List Nat := [0, 1, 2]
+
+def showOpt : Option Nat → String
+  | none => "-"
+  | some v => toString v
+
+def showOut : Out → String
+  | .none => ""
+  | .units u => "=" ++ showNats u
+  | .bool b => "=b" ++ showBool b
+
+def nat? (s : String) : Option Nat := s.toNat?
+def reg? (s : String) : Option Nat := match s.toNat? with
+  | some r => if r < 3 then some r else none
+  | none => none
+
+def joinSteps (l : List String) : String := "|".intercalate l
+
+/-! ### Array -/
+def parseArr (t : List String) : Option (ArrOp Nat) :=
+  match t with
+  | ["push", r, x] => do some (.push (← reg? r) (← nat? x))
+  | ["appc", r, s] => do some (.appC (← reg? r) (← reg? s))
+  | ["appm", r, s] => do some (.appM (← reg? r) (← reg? s))
+  | ["asgc", r, s] => do some (.asgC (← reg? r) (← reg? s))
+  | ["asgm", r, s] => do some (.asgM (← reg? r) (← reg? s))
+  | ["ctorc", r, s] => do some (.ctorC (← reg? r) (← reg? s))
+  | ["ctorm", r, s] => do some (.ctorM (← reg? r) (← reg? s))
+  | ["ctorn", r, n, i] => do some (.ctorN (← reg? r) (← nat? n) (← parseBool i))
+  | ["clear", r] => do some (.clear (← reg? r))
+  | ["reset", r] => do some (.reset (← reg? r))
+  | ["detach", r] => do some (.detach (← reg? r))
+  | ["reserve", r, n, i] => do some (.reserve (← reg? r) (← nat? n) (← parseBool i))
+  | ["resize", r, n] => do some (.resize (← reg? r) (← nat? n))
+  | ["resizei", r, n] => do some (.resizeInit (← reg? r) (← nat? n))
+  | ["expect", r, n] => do some (.expect (← reg? r) (← nat? n))
+  | ["compress", r] => do some (.compress (← reg? r))
+  | ["drop", r, n] => do some (.drop (← reg? r) (← nat? n))
+  | _ => none
+
+def parseOps {β : Type} (p : List String → Option β) (s : String) : Option (List β) :=
+  (s.splitOn ";").mapM (fun o => p (o.splitOn ":"))
+
+def dumpArr (st : ArrSt Nat) : String :=
+  "/".intercalate (regs.map fun r =>
+    let a := st r
+    s!"{a.size}:{a.cap}:{showNats a.data}:{showOpt a.last?}")
+
+def dumpAbs (st : Nat → List Nat) : String :=
+  "/".intercalate (regs.map fun r => s!"{(st r).length}:{showNats (st r)}")
+
+def showOutA : Option (List Nat) → String
+  | none => ""
+  | some u => "=" ++ showNats u
+
+def runArr (ops : List (ArrOp Nat)) : String :=
+  let (_, acc) := ops.foldl (fun (p : ArrSt Nat × List String) op =>
+    let (st', o) := op.step 0 p.1
+    (st', (dumpArr st' ++ showOutA o) :: p.2)) (arrInit, [])
+  joinSteps acc.reverse
+
+def runArrSpec (ops : List (ArrOp Nat)) : String :=
+  let (_, acc) := ops.foldl (fun (p : ArrAbs Nat × List String) op =>
+    let (st', o) := op.spec 0 p.1
+    (st', (dumpAbs st' ++ showOutA o) :: p.2)) ((fun _ => []), [])
+  joinSteps acc.reverse
+
+/-! ### String -/
+def parseStr (t : List String) : Option StrOp :=
+  match t with
+  | ["ctorc", r, s] => do some (.ctorC (← reg? r) (← reg? s))
+  | ["ctorm", r, s] => do some (.ctorM (← reg? r) (← reg? s))
+  | ["ctoru", r, u] => do some (.ctorU (← reg? r) (← parseNats u))
+  | ["ctorf", r, u] => do some (.ctorF (← reg? r) (← parseNats u))
+  | ["adopt", r, u] => do some (.adopt (← reg? r) (← parseNats u))
+  | ["asgc", r, s] => do some (.asgC (← reg? r) (← reg? s))
+  | ["asgm", r, s] => do some (.asgM (← reg? r) (← reg? s))
+  | ["asgu", r, u] => do some (.asgU (← reg? r) (← parseNats u))
+  | ["appc", r, s] => do some (.appC (← reg? r) (← reg? s))
+  | ["appm", r, s] => do some (.appM (← reg? r) (← reg? s))
+  | ["appu", _v, r, u] => do some (.appU (← reg? r) (← parseNats u))
+  | ["appch", r, c] => do some (.appCh (← reg? r) (← nat? c))
+  | ["plus", r, s, t] => do some (.plus (← reg? r) (← reg? s) (← reg? t))
+  | ["plusm", r, s, t] => do some (.plusM (← reg? r) (← reg? s) (← reg? t))
+  | ["plusu", r, s, u] => do some (.plusU (← reg? r) (← reg? s) (← parseNats u))
+  | ["trim", r, s] => do some (.trim (← reg? r) (← reg? s))
+  | ["stepback", r, n] => do some (.stepBack (← reg? r) (← nat? n))
+  | ["reverse", r, n] => do some (.reverse (← reg? r) (← nat? n))
+  | ["insertat", r, c, n] => do some (.insertAt (← reg? r) (← nat? c) (← nat? n))
+  | ["reset", r] => do some (.reset (← reg? r))
+  | ["detach", r] => do some (.detach (← reg? r))
+  | ["cmp", k, r, s] => do some (.cmp (← nat? k) (← reg? r) (← reg? s))
+  | ["cmpu", k, r, u] => do some (.cmpU (← nat? k) (← reg? r) (← parseNats u))
+  | _ => none
+
+def dumpStr (st : StrSt) : String :=
+  "/".intercalate (regs.map fun r =>
+    let s := st r
+    match s.store with
+    | none => s!"N:{s.len}"
+    | some _ => s!"{s.len}:{showOpt s.term?}:{showNats s.data}:{showOpt s.last?}")
+
+def runStr (ops : List StrOp) : String :=
+  let (_, acc) := ops.foldl (fun (p : StrSt × List String) op =>
+    let (st', o) := op.step p.1
+    (st', (dumpStr st' ++ showOut o) :: p.2)) (strInit, [])
+  joinSteps acc.reverse
+
+def runStrSpec (ops : List StrOp) : String :=
+  let (_, acc) := ops.foldl (fun (p : SeqAbs × List String) op =>
+    let (st', o) := op.spec p.1
+    (st', (dumpAbs st' ++ showOut o) :: p.2)) ((fun _ => []), [])
+  joinSteps acc.reverse
+
+/-! ### StringStream -/
+def parseSs (t : List String) : Option SsOp :=
+  match t with
+  | ["ctorn", r, n] => do some (.ctorN (← reg? r) (← nat? n))
+  | ["ctorc", r, s] => do some (.ctorC (← reg? r) (← reg? s))
+  | ["ctorm", r, s] => do some (.ctorM (← reg? r) (← reg? s))
+  | ["asgc", r, s] => do some (.asgC (← reg? r) (← reg? s))
+  | ["asgm", r, s] => do some (.asgM (← reg? r) (← reg? s))
+  | ["asgu", v, r, u] => do some (.asgU (← nat? v) (← reg? r) (← parseNats u))
+  | ["pushch", v, r, c] => do some (.pushCh (← nat? v) (← reg? r) (← nat? c))
+  | ["apps", r, s] => do some (.appS (← reg? r) (← reg? s))
+  | ["shls", r, s] => do some (.shlS (← reg? r) (← reg? s))
+  | ["appu", v, r, u] => do some (.appU (← nat? v) (← reg? r) (← parseNats u))
+  | ["clear", r] => do some (.clear (← reg? r))
+  | ["reset", r] => do some (.reset (← reg? r))
+  | ["detach", r] => do some (.detach (← reg? r))
+  | ["stepback", r, n] => do some (.stepBack (← reg? r) (← nat? n))
+  | ["reverse", r, n] => do some (.reverse (← reg? r) (← nat? n))
+  | ["insertat", r, c, n] => do some (.insertAt (← reg? r) (← nat? c) (← nat? n))
+  | ["setlen", r, n, f] => do some (.setLength (← reg? r) (← nat? n) (← parseNats f))
+  | ["buffer", r, f] => do some (.buffer (← reg? r) (← parseNats f))
+  | ["expect", r, n] => do some (.expect (← reg? r) (← nat? n))
+  | ["reserve", r, n] => do some (.reserve (← reg? r) (← nat? n))
+  | ["getstr", r] => do some (.getString (← reg? r))
+  | ["getview", r] => do some (.getView (← reg? r))
+  | ["insnull", r] => do some (.insertNull (← reg? r))
+  | ["eqs", k, r, s] => do some (.eqS (← nat? k) (← reg? r) (← reg? s))
+  | ["equ", v, k, r, u] => do some (.eqU (← nat? v) (← nat? k) (← reg? r) (← parseNats u))
+  | _ => none
+
+def dumpSs (st : SsSt) : String :=
+  "/".intercalate (regs.map fun r =>
+    let s := st r
+    s!"{s.len}:{s.cap}:{showNats s.data}:{showOpt s.data.getLast?}")
+
+def runSs (P : Policy) (ops : List SsOp) : String :=
+  let (_, acc) := ops.foldl (fun (p : SsSt × List String) op =>
+    let (st', o) := op.step P p.1
+    (st', (dumpSs st' ++ showOut o) :: p.2)) (ssInit, [])
+  joinSteps acc.reverse
+
+def runSsSpec (ops : List SsOp) : String :=
+  let (_, acc) := ops.foldl (fun (p : SeqAbs × List String) op =>
+    let (st', o) := op.spec p.1
+    (st', (dumpAbs st' ++ showOut o) :: p.2)) ((fun _ => []), [])
+  joinSteps acc.reverse
+
+/-! ### StringView -/
+def parseSv (t : List String) : Option SvOp :=
+  match t with
+  | ["ctorp", r, b, n] => do some (.ctorP (← reg? r) (← parseNats b) (← nat? n))
+  | ["ctorz", r, b] => do some (.ctorZ (← reg? r) (← parseNats b))
+  | ["ctorc", r, s] => do some (.ctorC (← reg? r) (← reg? s))
+  | ["ctorm", r, s] => do some (.ctorM (← reg? r) (← reg? s))
+  | ["asgc", r, s] => do some (.asgC (← reg? r) (← reg? s))
+  | ["asgm", r, s] => do some (.asgM (← reg? r) (← reg? s))
+  | ["asgz", r, b] => do some (.asgZ (← reg? r) (← parseNats b))
+  | ["reset", r] => do some (.reset (← reg? r))
+  | ["cmp", k, r, s] => do some (.cmp (← nat? k) (← reg? r) (← reg? s))
+  | ["cmpu", k, r, u] => do some (.cmpU (← nat? k) (← reg? r) (← parseNats u))
+  | _ => none
+
+def dumpSv (st : SvSt) : String :=
+  "/".intercalate (regs.map fun r =>
+    let s := st r
+    match s.store with
+    | none => s!"N:{s.len}"
+    | some _ => s!"{s.len}:{showNats s.data}:{showOpt s.last?}")
+
+def runSv (ops : List SvOp) : String :=
+  let (_, acc) := ops.foldl (fun (p : SvSt × List String) op =>
+    let (st', o) := op.step p.1
+    (st', (dumpSv st' ++ showOut o) :: p.2)) (svInit, [])
+  joinSteps acc.reverse
+
+def runSvSpec (ops : List SvOp) : String :=
+  let (_, acc) := ops.foldl (fun (p : SeqAbs × List String) op =>
+    let (st', o) := op.spec p.1
+    (st', (dumpAbs st' ++ showOut o) :: p.2)) ((fun _ => []), [])
+  joinSteps acc.reverse
+
+/-! ### Memory::Copy / SetToZero -/
+def runMem (what : String) (simd : Bool) (shift size seed : Nat) : String :=
+  -- destination: `size + 8` sentinel bytes; source: exactly `size` pattern bytes
+  let dst := List.replicate (size + 8) 170
+  match what with
+  | "copy" =>
+    match Mem.copyBlocks simd shift size dst (Mem.pattern seed size) with
+    | some d => s!"{Mem.fnv (d.take size)} {Mem.fnv (d.drop size)}"
+    | none => "FAULT model"
+  | "zero" =>
+    match Mem.zeroBlocks simd shift size dst with
+    | some d => s!"{Mem.fnv (d.take size)} {Mem.fnv (d.drop size)}"
+    | none => "FAULT model"
+  | "spec-copy" => s!"{Mem.fnv (Mem.pattern seed size)} {Mem.fnv (List.replicate 8 170)}"
+  | "spec-zero" => s!"{Mem.fnv (List.replicate size 0)} {Mem.fnv (List.replicate 8 170)}"
+  | _ => "bad-op"
+
+/-! ### C16: allocation trace of a program (all steps, then destruction of the three objects) -/
+def showEv : Qentem.Ledger.Ev → String
+  | .alloc i s => s!"a{i}:{s}"
+  | .free i => s!"f{i}"
+  | .touch i => s!"t{i}"
+
+def showTrace (t : List Qentem.Ledger.Ev) : String :=
+  if t.isEmpty then "-" else ",".intercalate (t.map showEv)
+
+def width? (s : String) : Option Nat :=
+  if s == "1" then some 1 else if s == "2" then some 2 else if s == "4" then some 4 else none
+
+def orBad : Option String → String
+  | some s => s
+  | none => "bad-op"
+
+def handle (op : String) (args : List String) : String :=
+  match op, args with
+  | "seq-array", [_k, ops] => orBad ((parseOps parseArr ops).map runArr)
+  | "seq-array-spec", [_k, ops] => orBad ((parseOps parseArr ops).map runArrSpec)
+  | "seq-string", [_w, ops] => orBad ((parseOps parseStr ops).map runStr)
+  | "seq-string-spec", [_w, ops] => orBad ((parseOps parseStr ops).map runStrSpec)
+  | "seq-stream", [_w, p, ops] =>
+    if p == "x" then orBad ((parseOps parseSs ops).map (runSs policyExact))
+    else if p == "s" then orBad ((parseOps parseSs ops).map (runSs policyStd))
+    else "bad-op"
+  | "seq-stream-spec", [_w, _p, ops] => orBad ((parseOps parseSs ops).map runSsSpec)
+  | "seq-view", [_w, ops] => orBad ((parseOps parseSv ops).map runSv)
+  | "seq-view-spec", [_w, ops] => orBad ((parseOps parseSv ops).map runSvSpec)
+  | "seqled-array", [k, ops] =>
+    if k == "i" then orBad ((parseOps parseArr ops).map fun o => showTrace (SeqLedger.arrTrace 4 o)) else "bad-op"
+  | "seqled-string", [w, ops] =>
+    orBad (do let w ← width? w; let o ← parseOps parseStr ops; some (showTrace (SeqLedger.strTrace w o)))
+  | "seqled-stream", [w, p, ops] =>
+    orBad (do
+      let w ← width? w
+      let o ← parseOps parseSs ops
+      if p == "x" then some (showTrace (SeqLedger.ssTrace policyExact w o))
+      else if p == "s" then some (showTrace (SeqLedger.ssTrace policyStd w o)) else none)
+  | "seqmem", [what, simd, shift, size, seed] =>
+    orBad (do
+      let b ← parseBool simd
+      some (runMem what b (← nat? shift) (← nat? size) (← nat? seed)))
+  | _, _ => "bad-op"
 
 end Qentem.Driver.Seq
